@@ -64,6 +64,7 @@ type WJob struct {
 	RoundDelayUs int        `json:"roundDelayUs"`
 	LogReads     bool       `json:"logReads"`
 	NoMatrix     bool       `json:"noMatrix"`
+	Gate         string     `json:"gate"` // "" | barrier | straggler : schedule control inside the stub runners
 	MustReject   bool       `json:"mustreject"`
 	Tag          string     `json:"tag"`
 }
@@ -307,7 +308,17 @@ func (r *obsReader) failErr() error {
 }
 
 // ---------------------------------------------------------------- stubs
+type gateState struct {
+	mu       sync.Mutex
+	cond     *sync.Cond
+	waiting  int   // workers parked at the barrier
+	released int   // barrier generation
+	done     int   // samples whose round has completed
+	first    int64 // start offset of the straggler's sample (-1: none yet)
+}
+
 type stubCtx struct {
+	gate   *gateState
 	job    *WJob
 	info   fnInfo
 	rec    *recorder
@@ -398,11 +409,25 @@ func stubRunner(item int) randomness.TestFunc {
 			e["badbyte"] = int(data[bad])
 		}
 		c.rec.add(e)
+		if item == 0 && c.gate != nil {
+			c.gate.park(c, start)
+		}
 		if c.job.RoundDelayUs > 0 {
 			c.dmu.Lock()
 			d := time.Duration(c.drng.Intn(c.job.RoundDelayUs+1)) * time.Microsecond
 			c.dmu.Unlock()
 			time.Sleep(d)
+		}
+		if item == c.info.items-1 && smp >= 0 {
+			// the buffer must still hold the same sample at the end of the round (another worker refilling a
+			// shared buffer while this one is judging would show here)
+			if st2, bad2 := decodeSample(&c.job.Stream, data); bad2 >= 0 || st2 != start {
+				c.rec.add(Event{"ev": "round", "item": item + 1, "start": st2, "bad": bad2, "len": len(data), "sample": -1, "changed": true})
+				smp = -1
+			}
+			if c.gate != nil {
+				c.gate.finished()
+			}
 		}
 		if smp < 0 {
 			// a corrupt / stale / misaligned sample: answer with a failing result
@@ -415,6 +440,65 @@ func stubRunner(item int) randomness.TestFunc {
 		}
 		return &randomness.TestResult{Name: name, P: p, Q: pl.q, Pass: pl.pass}
 	}
+}
+
+// park implements the two schedule families:
+//  barrier  : hold every worker at the start of its round until min(W, remaining samples) workers are parked,
+//             then release them together (simultaneous publishes into counters and result slots)
+//  straggler: the worker that received the first sample is held until every other sample has been judged
+//             (the decision must wait for it; its buffer must survive all the other reads)
+func (g *gateState) park(c *stubCtx, start int64) {
+	g.mu.Lock()
+	defer g.mu.Unlock()
+	total := c.info.s
+	switch c.job.Gate {
+	case "barrier":
+		w := runtime.NumCPU()
+		gen := g.released
+		g.waiting++
+		need := w
+		if rem := total - g.done; rem < need {
+			need = rem
+		}
+		if g.waiting >= need {
+			g.waiting = 0
+			g.released++
+			g.cond.Broadcast()
+			return
+		}
+		deadline := time.Now().Add(300 * time.Millisecond)
+		for g.released == gen && time.Now().Before(deadline) {
+			g.timedWait(20 * time.Millisecond)
+		}
+		if g.released == gen { // not enough workers will come (fewer workers than expected): let go
+			g.waiting = 0
+			g.released++
+			g.cond.Broadcast()
+		}
+	case "straggler":
+		if g.first < 0 {
+			g.first = start
+		}
+		if g.first == start && runtime.NumCPU() > 1 {
+			deadline := time.Now().Add(2 * time.Second)
+			for g.done < total-1 && time.Now().Before(deadline) {
+				g.timedWait(20 * time.Millisecond)
+			}
+		}
+	}
+}
+
+func (g *gateState) timedWait(d time.Duration) {
+	t := time.AfterFunc(d, func() { g.mu.Lock(); g.cond.Broadcast(); g.mu.Unlock() })
+	g.cond.Wait()
+	t.Stop()
+}
+
+func (g *gateState) finished() {
+	g.mu.Lock()
+	g.done++
+	g.cond.Broadcast()
+	g.mu.Unlock()
 }
 
 func installStubs() {
@@ -468,6 +552,10 @@ func runWorkflowJob(j *WJob) map[string]interface{} {
 	if j.Mode == "stub" && !single {
 		installStubs()
 		ctx = &stubCtx{job: j, info: info, rec: rec, plan: buildPlan(j, info), drng: rand.New(rand.NewSource(j.PlanSeed + 3)), active: true}
+		if j.Gate != "" {
+			ctx.gate = &gateState{first: -1}
+			ctx.gate.cond = sync.NewCond(&ctx.gate.mu)
+		}
 		curMu.Lock()
 		cur = ctx
 		curMu.Unlock()
@@ -548,6 +636,9 @@ waitLoop:
 		if r.panic != nil {
 			res["panic"] = fmt.Sprint(r.panic)
 		}
+		rec.mu.Lock()
+		seqAtReturn := rec.seq
+		rec.mu.Unlock()
 		res["verdict"] = r.ok
 		res["haserr"] = r.err != nil
 		if r.err != nil {
@@ -556,7 +647,7 @@ waitLoop:
 		res["named"] = namedItem(r.err, names)
 		// goroutine settle: workers exit after close(jobs)
 		leak := 0
-		for w := 0; w < 200; w++ {
+		for w := 0; w < 2000; w++ { // up to 10 s, only spent while goroutines are still around
 			leak = runtime.NumGoroutine() - g0
 			if leak <= 0 {
 				break
@@ -564,6 +655,12 @@ waitLoop:
 			time.Sleep(5 * time.Millisecond)
 		}
 		res["leak"] = leak
+		// anything a worker still does after the workflow has returned (a runner call, a Read) means the
+		// decision was taken before the barrier
+		time.Sleep(2 * time.Millisecond)
+		rec.mu.Lock()
+		res["late"] = rec.seq - seqAtReturn
+		rec.mu.Unlock()
 		if leak > 0 {
 			buf := make([]byte, 1<<16)
 			n := runtime.Stack(buf, true)
